@@ -38,6 +38,7 @@ func cmdFunc(args []string) {
 	thorough := fs.Bool("thorough", false, "thorough tier")
 	ms := fs.Int("ms", 10000, "timeout per obligation")
 	ssaDump := fs.Bool("ssa", false, "print SSA")
+	model := fs.Bool("model", false, "print candidate inputs / replay for failing obligations")
 	fs.Parse(args)
 	t0 := time.Now()
 	P, err := loadProg(envOr("VERIF_REPO", "/repo"), envOr("VERIF_CONTRACTS", "/verif/contracts"))
@@ -71,6 +72,9 @@ func cmdFunc(args []string) {
 			for _, l := range res.Ex.q.lines {
 				fmt.Println(l)
 			}
+			for _, o := range res.Obls {
+				fmt.Printf(";OBL %s pos=%d\n;  reach=%s\n;  cond=%s\n", o.Name, o.Pos, o.Reach, o.Cond)
+			}
 		}
 		vs := P.solveFunc(solver, res, *thorough, nil)
 		for _, v := range vs {
@@ -83,6 +87,14 @@ func cmdFunc(args []string) {
 				mark = "FAIL"
 			}
 			fmt.Printf("  %s %-8s %-7s %5.2fs %s  [%s] %s\n", mark, v.Status, v.Solver, v.Seconds, v.Obl.Name, v.Obl.SrcPos, v.File)
+			if !ok && *model && !v.Obl.Cover {
+				if rr := tryReplay(P, res.Ex, v.Obl, v, "/tmp/govc-q", 0); rr != nil {
+					fmt.Printf("       %s\n", rr.Note)
+					for k, val := range rr.Inputs {
+						fmt.Printf("       %s = %s\n", k, truncate(val, 300))
+					}
+				}
+			}
 		}
 	}
 }
